@@ -145,6 +145,11 @@ fn report(prop: &str, engine: &str, case: serde_json::Value, msg: &str) -> ! {
     std::process::abort();
 }
 
+/// A campaign started by `vf check <ID>` only reports violations of that property.
+fn wanted(prop: &str) -> bool {
+    std::env::var("VF_FUZZ_PROP").map(|w| w == prop).unwrap_or(true)
+}
+
 fn tag_property(tag: &str) -> Option<&'static str> {
     Some(match tag {
         "C02" => "C02",
@@ -172,6 +177,7 @@ pub fn fuzz_seq(data: &[u8]) {
     let out = run_seq(&case, &or, false);
     if let Some(v) = out.violation
         && let Some(p) = tag_property(&v.tag)
+        && wanted(p)
     {
         report(p, "seq", serde_json::to_value(&case).unwrap(), &format!("[{}] step {}: {}", v.tag, v.step, v.msg));
     }
@@ -184,13 +190,19 @@ pub fn fuzz_sched(data: &[u8]) {
     let out = run_conc(&case, &opts);
     if let Some(v) = out.violation {
         let full = format!("[{}] step {}: {}", v.tag, v.step, v.msg);
-        let prop = match v.tag.as_str() {
-            "C01" => "C01",
-            "C03" | "PANIC" => "C03",
-            "C04" => "C04",
-            "C13" => "C13",
+        let want = std::env::var("VF_FUZZ_PROP").ok();
+        let prop = match (v.tag.as_str(), want.as_deref()) {
+            // an overlapping/misplaced block also violates C03's third clause
+            ("C01", Some("C03")) => "C03",
+            ("C01", _) => "C01",
+            ("C03" | "PANIC", _) => "C03",
+            ("C04", _) => "C04",
+            ("C13", _) => "C13",
             _ => return,
         };
+        if !wanted(prop) {
+            return;
+        }
         if prop == "C03" && full.contains("Exceeding retries") {
             return; // known finding (known_findings.json), rediscovered forever otherwise
         }
